@@ -61,7 +61,7 @@ def sym_inc(bits):
     return [1] + out   # overflowed into the sign position: one bit longer (caller clamps)
 
 
-def rounding_cases(B, nk, full=True):
+def rounding_cases(B, nk, full=True, key_ids=()):
     """yield (assignment {literal index: 0/1}, expected kept bits (nk, msb first), case name) for the encoding string B"""
     if len(B) <= nk:
         yield {}, list(B) + [0] * (nk - len(B)), 'exact'
@@ -92,7 +92,8 @@ def rounding_cases(B, nk, full=True):
                 # highest set sticky bit = j
                 idxs = list(range(len(st_lits)))
                 if not full and len(idxs) > 3:
-                    idxs = [0, len(idxs) // 2, len(idxs) - 1]
+                    # sampled: first / middle / last sticky bit, plus the structurally interesting positions named by the caller
+                    idxs = sorted({0, len(idxs) // 2, len(idxs) - 1} | {i for i, b in enumerate(st_lits) if b[2] in key_ids})
                 for j in idxs:
                     a3 = dict(asg)
                     for b in st_lits[:j]:
@@ -198,11 +199,19 @@ def witness_assignment(got, want, all_lits):
 def compare(ctx, rule, label, cname, out, negative, want, path, stats, concrete=None):
     """concrete(asg) -> (args, input description, expected result pattern as int): used to turn a symbolic mismatch into a definite witness"""
     if out.kind != 'return':
-        if out.kind in ('panic', 'budget'):
-            ctx.finding(rule, label, 'no-return:' + str(out.value).replace(' ', ''), 'on rounding cell %s the conversion does not return: %s %s at %s'
-                        % (cname, out.kind, out.value, out.where), {'function': path})
-        else:
-            return 'undecided'
+        if out.kind in ('panic', 'budget') and concrete is not None:
+            # a panic seen on a symbolic path counts only when a concrete input of the cell reproduces it
+            for cand in ({'*': 0}, {'*': 1}):
+                try:
+                    cargs, cdesc, cexp, crun = concrete(cand)
+                    o2 = crun(cargs)
+                except Exception:
+                    continue
+                if o2.kind in ('panic', 'budget'):
+                    ctx.finding(rule, label, 'no-return:' + str(o2.value).replace(' ', ''), 'on rounding cell %s the conversion does not return: %s %s at %s, e.g. for input %s'
+                                % (cname, o2.kind, o2.value, o2.where, cdesc), {'function': path})
+                    return 'finding'
+        return 'undecided'
     r = result_int(out.value)
     if r is None:
         return 'undecided'
@@ -295,7 +304,7 @@ def decide(ctx, I, rule, label, cname, path, mkargs, gargs, negative, want, conc
                 return
             del ctx.undecided.get('rounding_inconsistent', [])[n_inc:]
         # an undecided branch (here or inside a callee, whose result is then unknown): enumerate the paths
-        outs, complete = I.explore(path, mkargs, gargs, max_paths=12)
+        outs, complete = I.explore(path, mkargs, gargs, max_paths=64)
         outs = [o for o in outs if o.kind != 'infeasible']
         if not complete or any(o.kind == 'undecided' for o in outs) or not outs:
             outs = None
@@ -687,3 +696,214 @@ def check_posit_round_fn(ctx, prog, rule, label, path, pty, mode, spec_fn, full=
     for k_, v in stats.items():
         ctx.count('rounding_%s' % k_, v)
     return stats
+
+
+# ------------------------------------------------------------------------------------------------ quire -> posit
+
+def quire_state(q, bits_msb_first, negative=False):
+    """AAgg quire state from the T bits (msb first) of a magnitude; `negative` only for single-field quires (two's complement via negof)"""
+    from aval import AAgg as _AAgg
+    fields = []
+    pos = 0
+    for (fb, signed) in q.fields:
+        chunk = bits_msb_first[pos:pos + fb]
+        pos += fb
+        v = AInt(fb, False, None, None, 0, 0, sym=list(reversed(chunk)))
+        v = aval.cast_int(v, fb, signed)
+        if negative:
+            v, _ = aval.neg(v)
+        fields.append(v)
+    return _AAgg(q.tykey, fields)
+
+
+def neg_bits(bits_msb_first, l):
+    """two's complement of a T-bit magnitude whose lowest set bit is at position l (bit l = 1, bits below 0): msb-first list"""
+    T = len(bits_msb_first)
+    out = []
+    for i, b in enumerate(bits_msb_first):
+        posn = T - 1 - i
+        if posn > l:
+            out.append((b[0], b[1], b[2], not b[3]) if is_lit(b) else 1 - b)
+        else:
+            out.append(b)
+    return out
+
+
+def check_quire_to_posit(ctx, prog, rule, q, frac_bits, full, seed=1, p_step=1, ps=None):
+    """Q::to_posit on rounding cells of the accumulator: (sign, position p of the leading one of the magnitude, rounding case); the other
+    accumulator bits symbolic.  Multi-limb quires: negative states additionally fix the position l of the lowest set bit (the limbs of a
+    two's complement are literals only then); l is sampled."""
+    import collections
+    from quire_common import self_ref
+    pty = q.pty
+    P = pty.posit
+    n = pty.bits
+    nk = n - 1
+    T = sum(b for b, _ in q.fields)
+    path = prog.inherent(q.tykey, 'to_posit')
+    label = '%s::to_posit' % q.name
+    I = Interp(prog, max_steps=400000)
+    stats = collections.Counter()
+    rng = random.Random(seed)
+    single = len(q.fields) == 1 and T <= 64      # negative states through a symbolic negation (negof) only for one machine word
+
+    def const_state(u):
+        fields = []
+        sh = T
+        for (fb, signed) in q.fields:
+            sh -= fb
+            c = (u >> sh) & mask(fb)
+            if signed and c >> (fb - 1):
+                c -= 1 << fb
+            fields.append(AInt.const(fb, signed, c))
+        return AAgg(q.tykey, fields)
+
+    def mkc(bits, negative):
+        def concrete(asg):
+            u = 0
+            for b in bits:
+                bit = (asg.get(b[2], asg.get('*', 0)) if is_lit(b) else b)
+                if is_lit(b) and b[3]:
+                    bit = 1 - bit
+                u = (u << 1) | bit
+            mag = ((-u) & mask(T)) if negative and not single else u
+            val = Fraction(mag, 1 << frac_bits)
+            if negative:
+                val = -val
+            uu = ((-u) & mask(T)) if (negative and single) else u
+            return ([self_ref(const_state(uu))], 'state %#x (%s)' % (uu, float(val)), P.encode(val), lambda a: I.run(path, a, {}))
+        return concrete
+    if ps is None:
+        ps = list(range(0, T - 1, p_step))
+    for negative in (False, True):
+        for p in ps:
+            scale = p - frac_bits
+            lits = [lit(p - 1 - i) for i in range(p)]
+            B = encoding_string(pty.es, scale, lits)
+            # sticky positions always included: limb boundaries and the edge of the 64-bit window below the leading one
+            keys = {j for j in range(p) if j % 64 in (0, 63)} | {p - 62, p - 63, p - 64, p - 65}
+            for asg, want, cname in rounding_cases(B, nk, full, keys):
+                if want is None:
+                    continue
+                want = clamp_const(want, nk)
+                mag = [0] * (T - 1 - p) + [1] + subst(lits, asg)
+                cn = '%s p=%d %s' % ('-' if negative else '+', p, cname)
+                variants = []
+                if not negative or single:
+                    variants.append((cn, mag, {}))
+                else:
+                    # lowest set bit l: candidates among the still-free literals and the forced ones
+                    free = [b[2] for b in mag if is_lit(b)]
+                    ones = [T - 1 - i for i, b in enumerate(mag) if b == 1]
+                    lowest_forced = min(ones)
+                    cand = sorted({j for j in free if j < lowest_forced}, reverse=True)
+                    ls = [lowest_forced] + (cand if full else [c for c in (cand[:1] + cand[len(cand) // 2:len(cand) // 2 + 1] + cand[-2:])])
+                    for l in sorted(set(ls), reverse=True):
+                        a2 = {}
+                        m2 = []
+                        for i, b in enumerate(mag):
+                            posn = T - 1 - i
+                            if is_lit(b) and posn < l:
+                                a2[b[2]] = 0
+                                m2.append(0)
+                            elif is_lit(b) and posn == l:
+                                a2[b[2]] = 1
+                                m2.append(1)
+                            else:
+                                m2.append(b)
+                        # the extra assignment must keep the case (sticky class etc.): accept only if the case's own assignment is respected
+                        if any(asg.get(k_) is not None and asg[k_] != v_ for k_, v_ in a2.items()):
+                            continue
+                        w2 = subst(want, a2)
+                        variants.append(('%s l=%d' % (cn, l), neg_bits(m2, l), a2, w2))
+                for var in variants:
+                    if len(var) == 3:
+                        vname, bits, a2 = var
+                        w = want
+                    else:
+                        vname, bits, a2, w = var
+                    # oracle self-check
+                    fa = {}
+                    u = 0
+                    for b in bits:
+                        if is_lit(b):
+                            fa.setdefault(b[2], rng.getrandbits(1))
+                            bit = fa[b[2]] ^ (1 if b[3] else 0)
+                        else:
+                            bit = b
+                        u = (u << 1) | bit
+                    magv = ((-u) & mask(T)) if (negative and not single) else u
+                    assert P.encode(Fraction(magv, 1 << frac_bits)) == instantiate(w, fa), ('oracle mismatch', label, vname)
+                    neg_sym = negative and single
+                    decide(ctx, I, rule, label, vname, path,
+                           (lambda bits=bits, neg_sym=neg_sym: [self_ref(quire_state(q, bits, neg_sym))]),
+                           {}, negative, [0] + list(w), mkc(bits, negative), stats, None)
+    for k_, v in stats.items():
+        ctx.count('rounding_%s' % k_, v)
+    return stats
+
+
+# ------------------------------------------------------------------------------------------------ process-parallel driver
+
+class _Collector:
+    """stands in for Ctx inside a worker process: records findings / samples / notes, merged by the parent"""
+    def __init__(self):
+        self.findings = []
+        self.samples = []
+        self.undecided = {}
+        self.cov = {}
+        self.notes = []
+
+    def finding(self, rule, fn, instance, msg, details=None, prop=None, alt=None):
+        for f in self.findings:
+            if (f.rule, f.fn, f.instance) == (rule, fn, instance):
+                return f
+        from framework import Finding
+        f = Finding('', rule, fn, instance, msg, details, alt)
+        self.findings.append(f)
+        return f
+
+    def sample(self, s_, limit=12):
+        if len(self.samples) < limit:
+            self.samples.append(s_)
+
+    def count(self, k, n=1):
+        self.cov[k] = self.cov.get(k, 0) + n
+
+
+_JOB = {}
+
+
+def _quire_worker(ps):
+    c = _Collector()
+    st = check_quire_to_posit(c, _JOB['prog'], _JOB['rule'], _JOB['q'], _JOB['fb'], _JOB['full'], ps=ps)
+    return dict(st), [(f.rule, f.fn, f.instance, f.msg, f.details) for f in c.findings], c.samples, c.undecided
+
+
+def parallel_quire_to_posit(ctx, prog, rule, q, frac_bits, full, p_step=1, workers=None):
+    import collections
+    import multiprocessing as mp
+    import os
+    T = sum(b for b, _ in q.fields)
+    ps = list(range(0, T - 1, p_step))
+    workers = workers or min(16, os.cpu_count() or 4, max(1, len(ps) // 4))
+    if workers <= 1:
+        return check_quire_to_posit(ctx, prog, rule, q, frac_bits, full, ps=ps)
+    _JOB.update(prog=prog, rule=rule, q=q, fb=frac_bits, full=full)
+    chunks = [ps[i::workers * 4] for i in range(workers * 4)]
+    chunks = [c for c in chunks if c]
+    tot = collections.Counter()
+    with mp.get_context('fork').Pool(workers) as pool:
+        for st, fs, samples, und in pool.imap_unordered(_quire_worker, chunks):
+            tot.update(st)
+            for rule_, fn, inst, msg, det in fs:
+                f = ctx.finding(rule_, fn, inst, msg, det)
+                if det and det.get('cells') and f.details is not det:
+                    f.details.setdefault('cells', []).extend(det['cells'])
+            for s_ in samples:
+                ctx.sample(s_, limit=8)
+            for k, v in und.items():
+                ctx.undecided.setdefault(k, []).extend(v if isinstance(v, list) else [v])
+    for k_, v in tot.items():
+        ctx.count('rounding_%s' % k_, v)
+    return tot
